@@ -66,6 +66,7 @@ Inductive op :=
   | OConv (t : N) (s : sd)
   | OAll
   | OFromBv (h : N) (cs : list N)
+  | OArr (cs : list N) (s : sd)
   (* translation *)
   | OXlate (m : N) (s : sd)
   | OXlateI (s : sd)
@@ -331,6 +332,22 @@ Definition step (st : state) (o : op) : res state :=
       ret (emit st (nat2n (slen C' c) :: xs ++ ds))
   | OAll => do f <- flat_lencodes (regs st); ret (emit st (nat2n (length (regs st)) :: f))
   | OFromBv _ cs => ret (push_reg st (encode B cs))
+  | OArr cs d =>
+      (* a SeqArray<A, N, W> holding cs, seen through Deref / AsRef / From<&_> / From<_> for Seq,
+         its hash and equality, Kmer == SeqArray (one-word arrays) and SeqArray<Iupac>::contains *)
+      do q <- slice_of st d;
+      let a := encode B cs in
+      do lc <- lencodes a;
+      let n := length cs in
+      let sep := [777%N] in
+      let base := lc ++ sep ++ lc ++ sep ++ lc ++ sep ++ lc ++ sep ++ [1%N; 1%N; b2n (seq_eqb a q)] in
+      let kpart := if (n * B <=? 64) then
+                     sep ++ [1%N; 1%N] ++
+                     (if slen C q =? n then [b2n (seq_eqb q a); b2n (seq_eqb q a)] else [2%N; 2%N])
+                   else [] in
+      let cpart := if c_has_mask C then [] else
+                   if B =? 4 then sep ++ [b2n (contains C a q)] else [] in
+      ret (emit st (base ++ kpart ++ cpart))
   | OXlate m d =>
       do s <- slice_of st d;
       let to_amino := SeqModel.to_amino C amino_codec in
